@@ -666,6 +666,9 @@ def build_sampler(scn):
         transitions = {"rw": Recording(RWTransition(model, scn.get("rw_scale", 0.7)), "rw")}
         if scn.get("second_transition"):
             transitions["jit"] = Recording(NoStatsTransition(0.05), "jit")
+        if scn.get("third_transition"):
+            # a second statistics-bearing transition with the SAME statistic keys as the first
+            transitions["rw2"] = Recording(RWTransition(model, 0.2, label="rw2"), "rw2")
         import warnings
 
         with warnings.catch_warnings():
@@ -1016,6 +1019,7 @@ def random_scenario(rng, *, profile="mixed", run_seed=None):
         scn["sampler"] = "generic"
         scn["system"] = {"kind": "euclid", "dim": dim, "target": zoo.quartic_from_seed(rng, dim)}
         scn["second_transition"] = rng.random() < 0.5
+        scn["third_transition"] = rng.random() < 0.4
         scn["init"] = rng.choice(["dict", "state"])
         scn["trace"] = rng.choice(["none", "empty", "pos", "two_overlap", "scalar", "tag", "three", "odd_keys", "override_dtype"])
         scn["adapters"] = rng.choice([None, [], ["rwscale"], ["rwscale", "jitamount"], ["jitamount"]])
